@@ -7,7 +7,8 @@ Open Scope string_scope.
 Open Scope list_scope.
 
 (** The documented fragment: below the document root every node is a mapping tagged !!map, a sequence tagged
-    !!seq, or a scalar with a scalar tag other than !!merge; no alias nodes; null-tagged scalars spell a null. *)
+    !!seq, or a scalar with a scalar tag other than !!merge; no alias nodes.  (That a null-tagged scalar resolves to null is no
+    longer part of the fragment: pint's strict pre-pass b9483ac enforces it, see Proofs/C01_full.v.) *)
 Definition null_text (s : string) : Prop := s = "" \/ s = "~" \/ s = "null" \/ s = "Null" \/ s = "NULL".
 
 Definition plain_node (m : node) : Prop :=
@@ -17,8 +18,7 @@ Definition plain_node (m : node) : Prop :=
                 (exists ps, n_content m = flat_map (fun kv : node * node => [fst kv; snd kv]) ps /\
                             forall k v, In (k, v) ps -> n_tag k <> nullTag)
   | KSequence => n_tag m = seqTag /\ n_value m = ""
-  | KScalar => n_content m = [] /\ n_tag m <> mapTag /\ n_tag m <> seqTag /\ n_tag m <> mergeTag /\
-               (n_tag m = nullTag -> null_text (n_value m))
+  | KScalar => n_content m = [] /\ n_tag m <> mapTag /\ n_tag m <> seqTag /\ n_tag m <> mergeTag
   | _ => False
   end.
 
@@ -144,11 +144,11 @@ Section Prom.
   Variables str_ok int_ok null_ok : node -> bool.
   Hypothesis H_str : forall n, n_kind n = KScalar -> n_tag n <> nullTag -> str_ok n = true.
   (** a null-tagged scalar that spells a null resolves to null (false only for an explicit !!null tag on a quoted text) *)
-  Hypothesis H_null : forall n, n_kind n = KScalar -> n_tag n = nullTag -> null_text (n_value n) -> null_ok n = true.
+  Hypothesis H_null : forall n, n_kind n = KScalar -> n_tag n = nullTag -> null_ok n = true.
 
   Lemma plain_null_ok x : plain_node x -> n_kind x = KScalar -> n_tag x = nullTag -> null_scalar null_ok x = true.
   Proof.
-    intros [_ H] K T. rewrite K in H. destruct H as (_ & _ & _ & _ & Hn).
+    intros _ K T.
     unfold null_scalar. rewrite T. cbn [String.eqb Ascii.eqb Bool.eqb andb]. change (nullTag =? nullTag) with true. cbn [andb].
     apply H_null; auto.
   Qed.
